@@ -382,6 +382,8 @@ def eval_eqn(eqn, ins, ctx):
         return [_argext(ins[0], p['axes'], name == 'argmax')]
     if name in ('cumsum', 'scatter-add', 'scatter_add'):
         return [_linear(eqn, ins)]
+    if name in ('scatter-mul', 'scatter_mul'):
+        return [_scatter_mul(eqn, ins)]
     if name == 'sort':
         return _sort(eqn, ins, ctx)
     if name == 'iota':
@@ -554,6 +556,30 @@ def _linear(eqn, ins):
         s = of[i]
         for j in onp.nonzero(J[i])[0]:
             s = tm.add(s, tm.mul(real_of_float(J[i, j]), uf[j]))
+        out[i] = s
+    return out.reshape(operand.shape)
+
+
+def _scatter_mul(eqn, ins):
+    """operand[idx] *= updates: the incidence (which update multiplies which entry) is read off the real primitive"""
+    operand, idx, upd = ins
+    if is_sym(idx):
+        raise Undecided('scatter-mul with symbolic indices')
+    operand, upd = to_obj(operand), to_obj(upd)
+    f = lambda u: onp.asarray(eqn.primitive.bind(jnp.ones(operand.shape), jnp.asarray(idx), jnp.asarray(u), **eqn.params)).reshape(-1)
+    Jm = onp.zeros((operand.size, upd.size))
+    for j in range(upd.size):
+        u = onp.ones(upd.size)
+        u[j] = 2.0
+        Jm[:, j] = f(u.reshape(upd.shape)) - 1.0       # 1 where update j multiplies the entry once, 3 where twice, ...
+    of, uf = operand.reshape(-1), upd.reshape(-1)
+    out = onp.empty(operand.size, dtype=object)
+    for i in range(operand.size):
+        s = of[i]
+        for j in onp.nonzero(Jm[i])[0]:
+            if abs(Jm[i, j] - 1.0) > 1e-12:
+                raise Undecided('scatter-mul with repeated indices')
+            s = tm.mul(s, uf[j])
         out[i] = s
     return out.reshape(operand.shape)
 
